@@ -26,16 +26,23 @@ func intInMixed(r *core.Run) {
 	r.Parallel("int-in-mixed", n, func(i int) {
 		rnd := r.Rand("int-in-mixed", i)
 		t := typs[i%len(typs)]
-		asPK := (i/len(typs))%3 == 2
+		asPK := (i/len(typs))%4 == 2
+		// multi: the integer column is the SECOND column of a two-column index whose leading column is pinned
+		// by an equality; there an IN list made only of out-of-range literals is index/scan-clean on this tree
+		// (it denotes no key at all) and is judged as well
+		multi := (i/len(typs))%4 == 3
 		e := core.NewEng("d")
 		defer e.Close()
 		s := e.NewSess()
-		if asPK {
-			s.MustExec(fmt.Sprintf("CREATE TABLE t (c %s PRIMARY KEY, id INT)", t.sql))
-		} else {
-			s.MustExec(fmt.Sprintf("CREATE TABLE t (id INT PRIMARY KEY, c %s, KEY kc (c))", t.sql))
+		switch {
+		case asPK:
+			s.MustExec(fmt.Sprintf("CREATE TABLE t (c %s PRIMARY KEY, id INT, x INT)", t.sql))
+		case multi:
+			s.MustExec(fmt.Sprintf("CREATE TABLE t (id INT PRIMARY KEY, c %s, x INT, KEY kxc (x, c))", t.sql))
+		default:
+			s.MustExec(fmt.Sprintf("CREATE TABLE t (id INT PRIMARY KEY, c %s, x INT, KEY kc (c))", t.sql))
 		}
-		s.MustExec(fmt.Sprintf("CREATE TABLE t0 (id INT, c %s)", t.sql))
+		s.MustExec(fmt.Sprintf("CREATE TABLE t0 (id INT, c %s, x INT)", t.sql))
 		vals := []int64{t.min, t.min + 1, t.max - 1, t.max, 0, 1, 5}
 		for k := 0; k < 4; k++ {
 			vals = append(vals, t.min+rnd.Int63n(t.max-t.min+1))
@@ -48,12 +55,13 @@ func intInMixed(r *core.Run) {
 			}
 			seen[v] = true
 			id++
+			xv := id % 2
 			if asPK {
-				s.MustExec(fmt.Sprintf("INSERT INTO t VALUES (%d, %d)", v, id))
+				s.MustExec(fmt.Sprintf("INSERT INTO t VALUES (%d, %d, %d)", v, id, xv))
 			} else {
-				s.MustExec(fmt.Sprintf("INSERT INTO t VALUES (%d, %d)", id, v))
+				s.MustExec(fmt.Sprintf("INSERT INTO t VALUES (%d, %d, %d)", id, v, xv))
 			}
-			s.MustExec(fmt.Sprintf("INSERT INTO t0 VALUES (%d, %d)", id, v))
+			s.MustExec(fmt.Sprintf("INSERT INTO t0 VALUES (%d, %d, %d)", id, v, xv))
 		}
 		span := new(big.Int).Sub(big.NewInt(t.max), big.NewInt(t.min))
 		span.Add(span, big.NewInt(1))
@@ -66,6 +74,9 @@ func intInMixed(r *core.Run) {
 		for q := 0; q < 6; q++ {
 			var lits []string
 			nin := 1 + rnd.Intn(3)
+			if multi && q%2 == 1 {
+				nin = 0 // every literal outside the type's range
+			}
 			for k := 0; k < nin; k++ {
 				lits = append(lits, fmt.Sprint(vals[rnd.Intn(len(vals))]))
 			}
@@ -75,6 +86,12 @@ func intInMixed(r *core.Run) {
 			}
 			rnd.Shuffle(len(lits), func(a, b int) { lits[a], lits[b] = lits[b], lits[a] })
 			pred := "c IN (" + strings.Join(lits, ", ") + ")"
+			if multi {
+				pred = fmt.Sprintf("x = %d AND %s", rnd.Intn(2), pred)
+				if q == 5 {
+					pred = fmt.Sprintf("(x = 0 AND c IN (%s)) OR (x = 1 AND c = %d)", strings.Join(lits, ", "), vals[rnd.Intn(len(vals))])
+				}
+			}
 			qi := "SELECT id FROM t WHERE " + pred
 			plan := s.Plan(qi)
 			r.Count("int-in-mixed.filters", 1)
@@ -99,7 +116,7 @@ func intInMixed(r *core.Run) {
 			r.Eval(1)
 			r.Count("verdicts", 1)
 			r.Count("int-in-mixed.verdicts", 1)
-			r.Distinct(fmt.Sprintf("int-in-mixed|%s|pk=%v|nin=%d|nout=%d", t.sql, asPK, nin, nout))
+			r.Distinct(fmt.Sprintf("int-in-mixed|%s|pk=%v|multi=%v|nin=%d|nout=%d", t.sql, asPK, multi, nin, nout))
 			if a.Failed() != b.Failed() {
 				r.Violation("int-in-mixed:error-asymmetry", map[string]any{"type": t.sql, "filter": pred, "indexed_err": fmt.Sprint(a.Err), "scan_err": fmt.Sprint(b.Err)})
 				continue
